@@ -1,7 +1,7 @@
 #!/venv/bin/python
 """C14 oracle stream (fourth round): SCALE, unusual IDENTIFIERS, DEFAULTS / optional parameters, ORDER of imports.
 
-    PYTHONPATH=/verif /venv/bin/python /verif/harness/agents/c14_scale.py [--seed 0] [--n 260] [--thorough]
+    PYTHONPATH=/verif /venv/bin/python /verif/harness/agents/c14_scale.py [--seed 0] [--n 250] [--thorough]
 
 Importable: `run(seed, n, driver, thorough) -> dict`, `replay(case, driver) -> dict` (AGENT_CONVENTIONS.md, "Diff-script
 protocol").  Oracles only (`"corr": {}`): the Lean driver is not used.
@@ -53,6 +53,8 @@ Streams
             B;A;B, A;A;B, A^k;B;A, ...), interleaved with other header statements, with / without an injected set, with
             autoload on / off, through parse_jaqal_string / parse_jaqal_file / circuitbuilder.build / run_jaqal_string.
             Reference: later import overrides earlier, injected overrides imports.  One call per candidate definition.
+  Every run of n >= 100 starts with a fixed GRID of ~80 recipes (each dimension x defect once, beyond the thresholds);
+  the remaining recipes are drawn at random from the streams.
   qsyn    : qsyntax circuits with 9 .. 101 ANONYMOUS lets (named `__c<k>` by the library) among user lets that bear such
             names, used as indices.
 
@@ -66,13 +68,17 @@ Oracles
                                       tabulated, never reported: not a matter of C14.)
   terminates                        : every guarded call returns within `harness.timeouts.limit()` seconds.
 
-Recommended: quick n=260 (~15 s), thorough n=900 (every applicable pipeline, ~2-3 min).
+Recommended: quick n=250 (6-16 s depending on the load of the machine; 3.5 s of it are imports), thorough n=800 (every applicable pipeline; a sample
+of 3-6 pipelines for chains / nests > 40 and registers >= 13 qubits; 1-2.5 min).
 
-FINDING on the unchanged library, kept out of the default stream (C14_SCALE_DEEP=1 generates it): beyond a size the
-refusal is a RecursionError, not a JaqalError — expand_macros / run_jaqal_circuit on a chain of >= ~200 macros, and
-circuitbuilder.build (not parse_jaqal_string, which converts it) on blocks nested >= ~400 deep:
-    build(parse_to_sexpression("register q[2]\\nmacro m0 r i { X r[i] }\\n" + "".join(f"macro m{k} r i { m{k-1} r i }\\n"
-          for k in range(1, 200)) + "prepare_all\\nm199 q 2\\nmeasure_all\\n"), inject_pulses=GATES)  -> expand_macros(...)
+FINDING on the unchanged library, kept out of the default stream (C14_SCALE_DEEP=1 adds two such recipes to the grid and
+lets macro chains grow to 257): beyond a size the refusal is a RecursionError, not a JaqalError — expand_macros /
+run_jaqal_circuit on a chain of >= ~200 macros (valid or not):
+    c = parse_jaqal_string("register q[2]\nmacro m0 r i { X r[i] }\n" + "".join("macro m%d r i { m%d r i }\n" % (k, k - 1)
+          for k in range(1, 200)) + "prepare_all\nm199 q 2\nmeasure_all\n", inject_pulses=GATES, autoload_pulses=False)
+    expand_macros(c)   ->  RecursionError  (the index 2 is outside q[2]: JaqalError is what C14 asks for)
+Seen by a direct probe only (not generated here, the harness itself recurses over the nesting): circuitbuilder.build — not
+parse_jaqal_string, which converts it to JaqalError — raises RecursionError on blocks nested >= ~400 deep.
 """
 import argparse
 import collections
@@ -643,6 +649,12 @@ def positions(n, rng):
     return ps
 
 
+def pick_pos(ps, j):
+    """the j-th choice among the positions: two out of three choices fall into the upper half (beyond the thresholds)"""
+    half = ps[len(ps) // 2:]
+    return half[(j // 3) % len(half)] if j % 3 else ps[(j // 3) % len(ps)]
+
+
 def bad_index(rng, C, S=None):
     c = [C, C, C + 1, -1, C + rng.choice([7, 64, 255, 256, 65536])]
     if S is not None and S > C:
@@ -790,6 +802,8 @@ def b_alias_chain(rc, rng):
     pb.map_index("m", "q", lit(0))
     j = rc.get("j", 0) % N
     cur, C = "q", S
+    shrink = rc.get("shrink", "any")
+    pb.tags.append(f"alias_chain shrinks {shrink}")
     if mode != "valid":
         pb.tags.append(f"alias_chain defect {bad}")
     for k in range(N):
@@ -816,7 +830,13 @@ def b_alias_chain(rc, rng):
                 src = f"a{k + 1}"
             elif bad == "dup":
                 name = f"a{k - 1}" if k > 0 else rng.choice(["q", "n", "m"])
-        form = rng.choice(["whole"] * 5 + ["rev"] * 3 + ["full"] * 2 + (["tail", "head"] if C > 2 else []) + (["stride"] if C >= 4 else []))
+        # where the chain SHRINKS: anywhere / only in the first links (next to the register) / only in the last links (the
+        # register and the long lower part of the chain are bigger than the alias that is finally indexed)
+        may_shrink = {"any": True, "early": k < 3, "late": k >= N - 3}[shrink]
+        form = rng.choice(["whole"] * 5 + ["rev"] * 3 + ["full"] * 2 + (["tail", "head"] * (1 if shrink == "any" else 6) if C > 2 and may_shrink else [])
+                          + (["stride"] if C >= 4 and may_shrink else []))
+        if shrink == "late" and k == N - 1 and C > 2 and rng.random() < 0.6:
+            form = "head"      # the alias finally indexed lacks the last qubit of its source: index C is one step outside it only
         if form == "whole":
             pb.map_whole(name, src)
         elif form == "rev":
@@ -835,7 +855,8 @@ def b_alias_chain(rc, rng):
     C = geo[0] if geo and geo[0] > 0 else 1
     v = rng.choice([0, C - 1])
     if mode != "valid" and bad == "index":
-        v = bad_index(rng, C, S)
+        # "near": the first index beyond the alias, which is still inside the register when the chain has shrunk
+        v = rng.choice([C, C, rng.randrange(C, max(S, C + 1))]) if rc.get("near") else bad_index(rng, C, S)
     pb.top.append(gate("X", item(cur, pb.expr(v, rng.choice(["lit", "lit", "let"])))))
     if C >= 2 and rng.random() < 0.6:
         pb.top.append(gate("CX", item(cur, lit(0)), item(cur, lit(C - 1))))
@@ -847,7 +868,7 @@ def b_names(rc, rng):
     N, mode, sort, bad = rc["N"], rc["mode"], rc["sort"], rc.get("bad")
     S = rng.choice([2, 3, 4, 5])
     ps = positions(N, rng)
-    j = ps[rc.get("j", 0) % len(ps)]
+    j = pick_pos(ps, rc.get("j", 0))
     uses = sorted(set(rng.sample(ps, min(3, len(ps))) + [j]))
     pb.tags.append(f"names {sort}" + (f" defect {bad}" if mode != "valid" else ""))
     invalid = mode != "valid"
@@ -858,7 +879,7 @@ def b_names(rc, rng):
                 val = bad_index(rng, S)
             pb.let(float(val) if (val >= 0 and rng.random() < 0.1) else val, name=f"v{k}")
         if invalid and bad == "dup":
-            pb.header.insert(rng.choice([j + 1, N]), {"k": "let", "name": f"v{j}", "v": E.enc(j % S)})
+            pb.header.insert(rng.choice([j + 1, N, N]), {"k": "let", "name": f"v{j}", "v": E.enc(j % S)})
         pb.reg("q", lit(S))
         if sort == "ovdict":
             for k in range(N):
@@ -886,7 +907,7 @@ def b_names(rc, rng):
                 i = bad_index(rng, S)
             pb.map_index(f"a{k}", "q", lit(i))
         if invalid and bad == "dup":
-            pb.header.insert(rng.choice([j + 2, N + 1]), {"k": "map", "name": f"a{j}", "src": "q", "form": "index", "index": lit(j % S)})
+            pb.header.insert(rng.choice([j + 2, N + 1, N + 1]), {"k": "map", "name": f"a{j}", "src": "q", "form": "index", "index": lit(j % S)})
         for u in uses:
             pb.top.append(gate("X", aid(f"a{u}")))
         if invalid and bad == "undef":
@@ -943,7 +964,7 @@ def b_statements(rc, rng):
     pb.reg("q", lit(S))
     pb.let(0, name="z")
     ps = positions(N, rng)
-    j = ps[rc.get("j", 0) % len(ps)]
+    j = pick_pos(ps, rc.get("j", 0))
     pb.tags.append(f"statements in {where}" + (f" defect {bad}" if mode != "valid" else ""))
     stmts = []
     for k in range(N):
@@ -1165,7 +1186,7 @@ def b_ident(rc, rng):
                 pb.macro(n1, ["a"], [gate("X", aid("a"))])
             st = [gate(n1, item(Q, lit(0)))]
             if mode != "dup":
-                st.append(gate(n2, item(Q, lit(1))))
+                st.append(gate(n2, item(Q, lit(rng.choice([0, 1])))))     # sometimes word for word the first call's argument
             place(st)
     else:  # native gate: the program's own injected set
         pb.reg(Q, lit(S))
@@ -1182,7 +1203,7 @@ def b_ident(rc, rng):
             named.setdefault(k, s)
         specs += list(named.values())
         prog_gates = specs
-        args2 = [item(Q, lit(1))]
+        args2 = [item(Q, lit(rng.choice([0, 1])))]                         # sometimes word for word the first call's argument
         if mode == "both":
             for _p, kind in g2["params"][1:]:
                 args2.append(item(Q, lit(2)) if kind == "qubit" else anum(1))
@@ -1641,9 +1662,9 @@ ORACLES = ["invalid_reference_rejected", "rejected_when_known", "rejection_is_ja
            "terminates"]
 
 
-def pick_size(rng, lo, hi, thorough):
+def pick_size(rng, lo, hi, thorough, cheap=False):
     c = [s for s in SIZES if lo <= s <= hi]
-    if not thorough:
+    if not thorough and not cheap:
         # quick: mostly the smaller thresholds, each big one now and then
         small = [s for s in c if s <= 70]
         if small and rng.random() < 0.6:
@@ -1661,7 +1682,7 @@ def gen_recipe(stream, rng, thorough):
         if kind == "depth":
             rc["pattern"] = rng.choice(["blocks", "mixed", "loops"])
             rc["src"] = rng.choice(["lit", "let", "ov", "macro_call", "macro_body"])
-            hi = (400 if rc["pattern"] == "blocks" else 200) if DEEP else (200 if rc["pattern"] == "blocks" else 100)
+            hi = 200 if rc["pattern"] == "blocks" else 100
             rc["N"] = pick_size(rng, 7, hi, thorough)
         elif kind == "macro_chain":
             rc["variant"] = rng.choice(["fwd", "swap", "wrapbody"])
@@ -1670,21 +1691,24 @@ def gen_recipe(stream, rng, thorough):
             rc["j"] = rng.choice([1, rc["N"] - 1, rc["N"] // 2, 8, 16, 32, 33, 64, 65, 100])
         elif kind == "alias_chain":
             rc["bad"] = rng.choice(["index", "index", "slice", "nonreg", "forward", "dup"])
-            rc["N"] = pick_size(rng, 7, 130, thorough)
-            rc["j"] = rng.choice([0, rc["N"] - 1, rc["N"] // 2, 8, 16, 32, 33, 64, 65, 100])
+            # fill_in_let takes ~1.3 s on a chain of 100 slices, ~4 s on 130: big chains are rare in the quick tier
+            rc["N"] = pick_size(rng, 7, (130 if rng.random() < 0.15 else 65) if thorough else rng.choice([100] + [65] * 6 + [49] * 25), thorough)
+            rc["j"] = rng.choice([0, rc["N"] - 1, rc["N"] - 1, rc["N"] // 2, 8, 16, 32, 33, 64, 65, 100])
+            rc["shrink"] = rng.choice(["any", "early", "late", "late"])
+            rc["near"] = rng.random() < 0.5
         elif kind == "names":
             rc["sort"] = rng.choice(["lets", "lets", "ovdict", "qaliases", "macros", "params"])
             rc["bad"] = rng.choice(["value", "ov", "dup", "undef", "asreg"])
-            rc["N"] = pick_size(rng, 7, 257 if rc["sort"] in ("params", "macros") else 1000, thorough)
+            rc["N"] = pick_size(rng, 7, 257 if rc["sort"] in ("params", "macros") else 1000, thorough, cheap=True)
             rc["j"] = rng.randrange(64)
         elif kind == "statements":
             rc["where"] = rng.choice(["top", "seq", "loop", "macro"])
             rc["bad"] = rng.choice(["index", "index", "unknown", "arity", "undef", "kind"])
-            rc["N"] = pick_size(rng, 7, 1000, thorough)
+            rc["N"] = pick_size(rng, 7, 1000, thorough, cheap=True)
             rc["j"] = rng.randrange(64)
         elif kind == "loops":
             rc["src"] = rng.choice(["lit", "let", "ov", "macro", "nested"])
-            rc["N"] = pick_size(rng, 7, 1000, thorough)
+            rc["N"] = pick_size(rng, 7, 1000, thorough, cheap=True)
         else:
             rc["src"] = rng.choice(["lit", "lit", "let", "shrink", "grow"])
             rc["N"] = rng.choice([9, 10, 11, 12, 13, 14] if thorough else [9, 10, 10, 11, 12, 12, 13, 14])
@@ -1692,6 +1716,8 @@ def gen_recipe(stream, rng, thorough):
     if stream == "ident":
         role = rng.choice(["let", "register", "qalias", "param", "macro", "macro", "gate", "gate", "gate"])
         base = rng.choice(GATE_BASES if role in ("macro", "gate") else VALUE_BASES)
+        if rng.random() < 0.15:
+            base = rng.choice(["L255", "L256", "L257", "L300", "L1000", "L5000"])
         modes = {"let": ["both", "both", "undef", "undef", "dup"], "register": ["both", "both", "undef", "undef", "dup"],
                  "qalias": ["both", "both", "undef", "undef", "dup"], "param": ["both", "both", "undef", "undef", "dup"],
                  "macro": ["both", "both", "undef", "undef", "wrongsig", "dup"],
@@ -1717,6 +1743,66 @@ def gen_recipe(stream, rng, thorough):
     raise ValueError(stream)
 
 
+def grid_recipes(rng, thorough):
+    """The part of every run that does not depend on luck: each (dimension x defect) once with a size beyond the
+    thresholds (incidental choices from the seed); thorough adds the valid twin of every recipe."""
+    def R():
+        return rng.getrandbits(48)
+
+    out = []
+    for bad in ["index", "slice", "nonreg", "forward", "dup"]:
+        n = rng.choice([33, 34, 40])
+        out.append({"stream": "scale", "kind": "alias_chain", "r": R(), "mode": "bad", "bad": bad, "N": n, "j": rng.choice([n - 1, n - 2, 33]),
+                    "shrink": "late", "near": True})
+    out.append({"stream": "scale", "kind": "alias_chain", "r": R(), "mode": "bad", "bad": "index", "N": 65, "j": 64, "shrink": "late", "near": True})
+    for bad in ["index", "arity", "forward", "kind", "unknown"]:
+        # a wrong kind is what the call of the definition during substitution checks: the two-qubit (swap) variant
+        variant = "swap" if bad == "kind" else rng.choice(["fwd", "swap", "wrapbody"])
+        n = 65 if variant == "wrapbody" else rng.choice([65, 100, 129])
+        out.append({"stream": "scale", "kind": "macro_chain", "r": R(), "mode": "bad", "variant": variant, "bad": bad, "N": n,
+                    "j": rng.choice([n - 1, 33, 64])})
+    for sort in ["lets", "ovdict", "qaliases", "macros", "params"]:
+        for bad in ["value", "ov", "dup", "undef", "asreg"]:
+            out.append({"stream": "scale", "kind": "names", "r": R(), "mode": "bad", "sort": sort, "bad": bad,
+                        "N": rng.choice([65, 100, 129, 257]), "j": 1 + 3 * rng.randrange(20)})
+    for bad in ["index", "unknown", "arity", "undef", "kind"]:
+        out.append({"stream": "scale", "kind": "statements", "r": R(), "mode": "bad", "where": rng.choice(["top", "seq", "loop", "macro"]),
+                    "bad": bad, "N": rng.choice([129, 257, 300]), "j": 1 + 3 * rng.randrange(20)})
+    for src in ["lit", "let", "ov", "macro_call", "macro_body"]:
+        out.append({"stream": "scale", "kind": "depth", "r": R(), "mode": "bad", "pattern": rng.choice(["blocks", "mixed", "loops"]),
+                    "src": src, "N": rng.choice([33, 40, 65])})
+    for src in ["lit", "let", "ov", "macro", "nested"]:
+        out.append({"stream": "scale", "kind": "loops", "r": R(), "mode": rng.choice(["valid", "bad"]), "src": src, "N": rng.choice([65, 129, 257])})
+    out.append({"stream": "scale", "kind": "qubits", "r": R(), "mode": "bad", "src": rng.choice(["lit", "let", "shrink"]), "N": rng.choice([11, 12])})
+    out.append({"stream": "scale", "kind": "qubits", "r": R(), "mode": "valid", "src": "lit", "N": rng.choice([13, 14])})
+    for role in ["let", "register", "qalias", "param", "macro", "gate"]:
+        out.append({"stream": "ident", "kind": "ident", "r": R(), "role": role, "base": rng.choice(["L256", "L300", "L1000"]), "v": rng.randrange(64),
+                    "mode": "undef", "flip": rng.random() < 0.5})
+    for role in ["macro", "gate"]:
+        out.append({"stream": "ident", "kind": "ident", "r": R(), "role": role, "base": rng.choice(["L256", "L300", "X", "cal.Rx"]),
+                    "v": rng.randrange(64), "mode": "wrongsig", "flip": False})
+    for role, base in [("gate", "X"), ("gate", "cal.Rx"), ("macro", "F"), ("macro", "m.F"), ("let", "x"), ("qalias", "cal.x")]:
+        # a dotted prefix / suffix / repetition in front of a defined name (variants 0-4, 11-13 of `variants`)
+        out.append({"stream": "ident", "kind": "ident", "r": R(), "role": role, "base": base, "v": rng.choice([0, 1, 2, 4, 11, 12, 13]),
+                    "mode": "undef", "flip": False})
+    for pat in ["ABA", "BAB", "AkBA", "ABAB"]:
+        for inj in [None, "G"]:
+            out.append({"stream": "gateset", "kind": "gateset", "r": R(), "pattern": pat, "L": rng.choice([4, 9, 17]), "auto": True, "inj": inj,
+                        "entry": rng.choice(["parse_string", "parse_file", "build_sexpr"])})
+    if DEEP:    # the finding of the module docstring
+        out.append({"stream": "scale", "kind": "macro_chain", "r": R(), "mode": "bad", "variant": "fwd", "bad": "index", "N": 200, "j": 3})
+        out.append({"stream": "scale", "kind": "macro_chain", "r": R(), "mode": "bad", "variant": "swap", "bad": "kind", "N": 257, "j": 3})
+    if thorough:
+        twins = []
+        for rc in out:
+            if rc.get("mode") == "bad":
+                twins.append({**rc, "mode": "valid", "r": R()})
+            elif rc["kind"] == "ident":
+                twins.append({**rc, "mode": "both", "r": R()})
+        out += twins
+    return out
+
+
 WEIGHTS = [("scale", 10), ("ident", 8), ("gateset", 3), ("defaults", 3), ("values", 1), ("qsyn", 1)]
 
 
@@ -1731,9 +1817,21 @@ def plan_streams(rng, n):
     return names
 
 
-def choose_pipes(rng, prog, text, thorough, stream):
+def choose_pipes(rng, prog, text, thorough, stream, rc=None):
     ps = applicable(prog, text)
-    if thorough or not ps:
+    if not ps:
+        return ps
+    if thorough:
+        # long chains / deep nests are slow in the library (fill_in_let: ~1.3 s on 100 sliced aliases): a sample of pipelines
+        heavy = rc is not None and ((rc["kind"] in ("alias_chain", "depth", "macro_chain") and rc.get("N", 0) > 40)
+                                    or (rc["kind"] == "qubits" and rc["N"] >= 13))
+        if heavy:
+            k = 3 if (rc["kind"] == "alias_chain" and rc["N"] > 64) else 6
+            groups = [[p for p in ("A", "B", "C") if p in ps], [p for p in DEFAULT_PIPES if p in ps], [p for p in OBJ_PIPES if p in ps]]
+            chosen = [rng.choice(g) for g in groups if g]
+            rest = [p for p in ps if p not in chosen]
+            rng.shuffle(rest)
+            return (chosen + rest)[:k]
         return ps
     if stream == "defaults":
         first = [p for p in DEFAULT_PIPES if p in ps]
@@ -1840,10 +1938,15 @@ def run(seed: int, n: int, driver: str = DEFAULT_DRIVER, thorough: bool = False)
     root = tempfile.mkdtemp(prefix="c14scale")
     sys.path.insert(0, root)
     try:
-        for stream in plan_streams(rng, n):
+        grid = grid_recipes(random.Random(rng.getrandbits(64)), thorough) if n >= 100 else []
+        todo = [(rc["stream"], rc) for rc in grid] + [(st, None) for st in plan_streams(rng, max(1, n - len(grid)))]
+        for stream, rc in todo:
             sub = random.Random(rng.getrandbits(64))
-            rc = gen_recipe(stream, sub, thorough)
-            summary = run_recipe(rc, lambda prog, text, sub=sub, stream=stream: choose_pipes(sub, prog, text, thorough, stream), root, report, count)
+            if rc is None:
+                rc = gen_recipe(stream, sub, thorough)
+            else:
+                count("grid recipe")
+            summary = run_recipe(rc, lambda prog, text, sub=sub, stream=stream, rc=rc: choose_pipes(sub, prog, text, thorough, stream, rc), root, report, count)
             count(f"stream {stream}")
             count(f"kind {rc['kind']}")
             distinct.add(json.dumps(rc, sort_keys=True))
@@ -1888,7 +1991,7 @@ def replay(case: dict, driver: str = DEFAULT_DRIVER) -> dict:
 def main():
     ap = argparse.ArgumentParser()
     ap.add_argument("--seed", type=int, default=0)
-    ap.add_argument("--n", type=int, default=260)
+    ap.add_argument("--n", type=int, default=250)
     ap.add_argument("--thorough", action="store_true")
     ap.add_argument("--driver", default=DEFAULT_DRIVER)
     a = ap.parse_args()
